@@ -3,5 +3,7 @@ CONSTANTS Writers = {1, 2}
  NChunks = 2
  InitKind = "same"
  InPlace = FALSE
-INVARIANTS TargetIntact ReaderSeesComplete SameContentSucceeds OkMeansWritten
+ Faults = TRUE
+ OnError = "report"
+INVARIANTS TargetIntact ReaderSeesComplete SameContentSucceeds OkMeansWritten FailureIsReported
 CHECK_DEADLOCK FALSE
